@@ -174,7 +174,7 @@ def P2 : Nat → List Call := fun k => if k < 2 then [[⟨0, false⟩]] else []
 /-- thread 0 is preempted inside the critical section, thread 1 finds the lock taken (its step is not enabled,
 the state does not change), thread 0 finishes, thread 1 runs: both calls return their value. -/
 example :
-    let s := run W1loc false (init W1loc P2) ([0,0,0,0,0] ++ [1,1,1,1,1] ++ List.replicate 25 0 ++ List.replicate 12 1)
+    let s := run W1loc false (init W1loc P2) ([0,0,0,0,0,0] ++ [1,1,1,1,1] ++ List.replicate 25 0 ++ List.replicate 12 1)
     (s.th 0).pc = .fin ∧ (s.th 1).pc = .fin ∧ (s.th 0).outs = [.ok] ∧ (s.th 1).outs = [.ok] := by
   decide +kernel
 
@@ -182,7 +182,7 @@ example :
 lock): the hypotheses of `C20_terminates` / `C20_maximal_run_finishes` are satisfiable, and the run ends with both
 threads finished -/
 example :
-    let sched := [0,0,0,0,0] ++ [1,1] ++ List.replicate 19 0 ++ List.replicate 6 1
+    let sched := [0,0,0,0,0,0] ++ [1,1,1] ++ List.replicate 20 0 ++ List.replicate 7 1
     EffRun W1loc 2 (init W1loc P2) sched ∧ sched.length ≤ total W1loc 2 (init W1loc P2)
       ∧ ((run W1loc false (init W1loc P2) sched).th 0).pc = .fin
       ∧ ((run W1loc false (init W1loc P2) sched).th 1).pc = .fin :=
@@ -199,7 +199,7 @@ theorem C20_legacy_keyerror_witness :
 /-- Pre-fix, function-local class: thread 1 sees an empty `forward_refs` while thread 0 has popped the name but
 not yet rewritten the field; it reads the `ForwardRef`, thread 0 then clears it: "ForwardRef not evaluated". -/
 theorem C20_legacy_half_initialised_witness :
-    ((run W1loc true (init W1loc P2) (List.replicate 10 0 ++ [1,1,1] ++ List.replicate 30 0 ++ List.replicate 30 1)).th 1).outs
+    ((run W1loc true (init W1loc P2) (List.replicate 11 0 ++ [1,1,1,1] ++ List.replicate 30 0 ++ List.replicate 30 1)).th 1).outs
       = [.perr] ∧ alone W1loc [⟨0, false⟩] = .ok := by
   decide +kernel
 
@@ -207,7 +207,7 @@ theorem C20_legacy_half_initialised_witness :
 thread 0 writes the raw `typing` object into `fields['f0'].type` — every later call fails, also sequentially. -/
 theorem C20_legacy_corrupted_type_witness :
     let s := run W1gen true (init W1gen fun k => if k < 2 then [[⟨0, false⟩], [⟨0, false⟩]] else [])
-      (List.replicate 9 0 ++ List.replicate 5 1 ++ List.replicate 40 0 ++ List.replicate 40 1)
+      (List.replicate 10 0 ++ List.replicate 6 1 ++ List.replicate 40 0 ++ List.replicate 40 1)
     s.g.fty 0 = .res .raw ∧ (s.th 0).outs = [.perr, .perr] := by
   decide +kernel
 
